@@ -46,6 +46,95 @@ theorem removeRest_mem : ∀ (tl vo removed vo' : List Vtx), removeRest vo tl re
       · exact ih _ _ _ h x ((List.mem_erase_of_ne hnt.1).2 hx) hnt.2
       · simp at h
 
+theorem replaceFirst_spec : ∀ (l : List Vtx) (a b : Vtx), l.Nodup → a ∈ l → b ∉ l →
+    ∃ l', replaceFirst l a b = some l' ∧ l'.Nodup ∧ ∀ x, x ∈ l' ↔ x = b ∨ (x ∈ l ∧ x ≠ a) := by
+  intro l
+  induction l with
+  | nil => intro a b _ h; simp at h
+  | cons y t ih =>
+    intro a b hnd ha hb
+    simp only [List.nodup_cons] at hnd
+    simp only [List.mem_cons, not_or] at hb
+    by_cases e : y = a
+    · subst e
+      refine ⟨b :: t, by simp [replaceFirst], List.nodup_cons.2 ⟨hb.2, hnd.2⟩, fun x => ?_⟩
+      simp only [List.mem_cons]
+      constructor
+      · rintro (h | h)
+        · exact Or.inl h
+        · exact Or.inr ⟨Or.inr h, fun e => hnd.1 (e ▸ h)⟩
+      · rintro (h | ⟨h1 | h1, h2⟩)
+        · exact Or.inl h
+        · exact absurd h1 h2
+        · exact Or.inr h1
+    · have ha' : a ∈ t := by
+        simp only [List.mem_cons] at ha
+        rcases ha with ha | ha
+        · exact absurd ha.symm e
+        · exact ha
+      obtain ⟨l1, h1, h2, h3⟩ := ih a b hnd.2 ha' hb.2
+      refine ⟨y :: l1, by simp [replaceFirst, e, h1], List.nodup_cons.2 ⟨?_, h2⟩, fun x => ?_⟩
+      · intro hy
+        rcases (h3 y).1 hy with h | ⟨h, _⟩
+        · exact hb.1 h.symm
+        · exact hnd.1 h
+      · simp only [List.mem_cons, h3 x]
+        constructor
+        · rintro (h | h | ⟨h1, h2⟩)
+          · subst h; exact Or.inr ⟨Or.inl rfl, e⟩
+          · exact Or.inl h
+          · exact Or.inr ⟨Or.inr h1, h2⟩
+        · rintro (h | ⟨h1 | h1, h2⟩)
+          · exact Or.inr (Or.inl h)
+          · exact Or.inl h1
+          · exact Or.inr (Or.inr ⟨h1, h2⟩)
+
+theorem removeRest_spec : ∀ (tl vo removed : List Vtx), vo.Nodup → (∀ v ∈ tl, v ∈ removed ∨ v ∈ vo) →
+    (∀ v ∈ removed, v ∉ vo) →
+    ∃ vo', removeRest vo tl removed = .ok vo' ∧ vo'.Nodup ∧ ∀ x, x ∈ vo' ↔ x ∈ vo ∧ x ∉ tl := by
+  intro tl
+  induction tl with
+  | nil => intro vo removed hnd _ _; exact ⟨vo, rfl, hnd, fun x => by simp⟩
+  | cons v t ih =>
+    intro vo removed hnd hin hrem
+    have hin' : ∀ u ∈ t, u ∈ removed ∨ u ∈ vo := fun u hu => hin u (by simp [hu])
+    simp only [removeRest]
+    split
+    · rename_i hv
+      obtain ⟨vo', h1, h2, h3⟩ := ih vo removed hnd hin' hrem
+      refine ⟨vo', h1, h2, fun x => ?_⟩
+      rw [h3 x]
+      simp only [List.mem_cons, not_or]
+      constructor
+      · rintro ⟨a, b⟩; exact ⟨a, fun e => hrem v hv (e ▸ a), b⟩
+      · rintro ⟨a, _, b⟩; exact ⟨a, b⟩
+    · rename_i hv
+      split
+      · rename_i hvo
+        obtain ⟨vo', h1, h2, h3⟩ := ih (vo.erase v) (v :: removed) (hnd.erase v) (by
+            intro u hu
+            by_cases e : u = v
+            · exact Or.inl (by simp [e])
+            · rcases hin' u hu with h | h
+              · exact Or.inl (by simp [h])
+              · exact Or.inr ((List.mem_erase_of_ne e).2 h)) (by
+            intro u hu hm
+            rw [hnd.mem_erase_iff] at hm
+            simp only [List.mem_cons] at hu
+            rcases hu with hu | hu
+            · exact hm.1 hu
+            · exact hrem u hu hm.2)
+        refine ⟨vo', h1, h2, fun x => ?_⟩
+        rw [h3 x, hnd.mem_erase_iff]
+        simp only [List.mem_cons, not_or]
+        constructor
+        · rintro ⟨⟨a, b⟩, c⟩; exact ⟨b, a, c⟩
+        · rintro ⟨b, a, c⟩; exact ⟨⟨a, b⟩, c⟩
+      · rename_i hvo
+        rcases hin v (by simp) with h | h
+        · exact absurd h hv
+        · exact absurd h hvo
+
 structure MInv (i : Nat) (vr : VR) (cs : List Constraint) (subs : List (List Vtx)) : Prop where
   nodup : (keys vr).Nodup
   fv : ∀ v ∈ keys vr, VFresh subs.length v
@@ -64,6 +153,10 @@ structure MergeOut (m : Machine) (vr : VR) (cs : List Constraint) (subs : List (
   back : ∀ q, Feasible vrf csf m q → ∃ p, finaliseFrom subs.length added q = .ok p ∧ Feasible vr cs m p
   order : ∀ vo vo', (∀ v ∈ keys vr, v ∈ vo) → substOrder subs.length added vo = .ok vo' →
     ∀ v ∈ keys vrf, v ∈ vo'
+  /-- the rewrite of a vertex order that is a permutation of the vertices cannot fail and yields a
+  permutation of the vertices of the merged problem -/
+  orderOk : ∀ vo, vo.Nodup → (∀ v, v ∈ vo ↔ v ∈ keys vr) →
+    ∃ vo', substOrder subs.length added vo = .ok vo' ∧ vo'.Nodup ∧ ∀ v, v ∈ vo' ↔ v ∈ keys vrf
 
 theorem applySameLoop_spec (m : Machine) : ∀ (n i : Nat) (vr : VR) (cs : List Constraint) (subs : List (List Vtx))
     (vrf : VR) (csf : List Constraint) (subsf : List (List Vtx)),
@@ -75,11 +168,13 @@ theorem applySameLoop_spec (m : Machine) : ∀ (n i : Nat) (vr : VR) (cs : List 
     intro i vr cs subs vrf csf subsf I hlen h
     simp [applySameLoop] at h
     obtain ⟨rfl, rfl, rfl⟩ := h
-    refine ⟨[], by simp, ?_, fun h => h, fun q F => ⟨q, rfl, F⟩, ?_⟩
+    refine ⟨[], by simp, ?_, fun h => h, fun q F => ⟨q, rfl, F⟩, ?_, ?_⟩
     · have : i = cs.length := by omega
       subst this; simpa using I
     · intro vo vo' hvo h v hv
       simp [substOrder] at h; subst h; exact hvo v hv
+    · intro vo hnd hvo
+      exact ⟨vo, rfl, hnd, hvo⟩
   | succ n ih =>
     intro i vr cs subs vrf csf subsf I hlen h
     simp only [applySameLoop] at h
@@ -145,7 +240,7 @@ theorem applySameLoop_spec (m : Machine) : ∀ (n i : Nat) (vr : VR) (cs : List 
                 | endpoint v => simp [rewrite] at hws
                 | other => simp [rewrite] at hws
           obtain ⟨added', hsub, O⟩ := ih _ _ _ _ _ _ _ I' (by simp; omega) h
-          refine ⟨vs :: added', by simp [hsub], ?_, ?_, ?_, ?_⟩
+          refine ⟨vs :: added', by simp [hsub], ?_, ?_, ?_, ?_, ?_⟩
           · simpa using O.inv
           · intro hnn
             apply O.nonneg
@@ -191,6 +286,52 @@ theorem applySameLoop_spec (m : Machine) : ∀ (n i : Nat) (vr : VR) (cs : List 
                     simp only [List.mem_cons, not_or] at h2
                     exact removeRest_mem _ _ _ _ hrem u (r2 u (hvo u h1) h2.1) h2.2
                   · exact removeRest_mem _ _ _ _ hrem _ r1 hmk.2
+          · intro vo hnd hvo
+            have hord := O.orderOk
+            simp only [List.length_append, List.length_singleton] at hord
+            match vs, hlong, hpop, P, hk1 with
+            | [], hlong, _, _, _ => simp at hlong
+            | v0 :: tl, hlong, hpop, P, hk1 =>
+              have hpres : ∀ v ∈ v0 :: tl, v ∈ keys vr := fun v hv => P.present v ((mem_dedup _ v).2 hv)
+              have hfresh : Vtx.m subs.length ∉ vo := fun hm => (I.fv _ ((hvo _).1 hm)).ne rfl
+              obtain ⟨vo1, h1, n1, m1⟩ := replaceFirst_spec vo v0 (Vtx.m subs.length) hnd
+                ((hvo v0).2 (hpres v0 (by simp))) hfresh
+              have hv0 : v0 ≠ Vtx.m subs.length := (I.fv _ (hpres v0 (by simp))).ne
+              obtain ⟨vo2, h2, n2, m2⟩ := removeRest_spec tl vo1 [v0] n1 (by
+                  intro v hv
+                  by_cases e : v = v0
+                  · exact Or.inl (by simp [e])
+                  · exact Or.inr ((m1 v).2 (Or.inr ⟨(hvo v).2 (hpres v (by simp [hv])), e⟩))) (by
+                  intro v hv hm
+                  simp only [List.mem_singleton] at hv; subst hv
+                  rcases (m1 v).1 hm with h | ⟨_, h⟩
+                  · exact hv0 h
+                  · exact h rfl)
+              obtain ⟨vo', h3, n3, m3⟩ := hord vo2 n2 (by
+                intro x
+                rw [m2 x, m1 x, hkeys']
+                simp only [List.mem_append, List.mem_singleton]
+                constructor
+                · rintro ⟨h | ⟨h1, h2⟩, h3⟩
+                  · exact Or.inr h
+                  · left
+                    rw [P.keys x]
+                    refine ⟨(hvo x).1 h1, fun hd => ?_⟩
+                    have := (mem_dedup _ x).1 hd
+                    simp only [List.mem_cons] at this
+                    rcases this with h | h
+                    · exact h2 h
+                    · exact h3 h
+                · rintro (h | h)
+                  · obtain ⟨k1, k2⟩ := hk1 x h
+                    simp only [List.mem_cons, not_or] at k2
+                    exact ⟨Or.inr ⟨(hvo x).2 k1, k2.1⟩, k2.2⟩
+                  · subst h
+                    refine ⟨Or.inl rfl, fun hm => ?_⟩
+                    exact (I.fv _ (hpres _ (by simp [hm]))).ne rfl)
+              refine ⟨vo', ?_, n3, m3⟩
+              simp only [substOrder, h1, bind, Except.bind, h2]
+              exact h3
     · rename_i hnot
       have I' : MInv (i + 1) vr cs subs := by
         refine ⟨I.nodup, I.fv, I.fc, fun j hj ws hws => ?_⟩
